@@ -149,13 +149,13 @@ func asciiLower(b []byte) []byte {
 
 // ---- alphabets (DESIGN.md §2) ----
 
-var alphaCSS = engine.Atoms(" ", "\t", "\n", "\r", "\f", ":", ";", ",", "(", ")", "[", "]", "{", "}", "#", "\"", "'", ".",
+var alphaCSS = engine.Atoms(" ", "\t", "\n", "\r", "\f", "\v", ":", ";", ",", "(", ")", "[", "]", "{", "}", "#", "\"", "'", ".",
 	"+", "-", "@", "$", "*", "^", "~", "/", "<", "!", ">", "\\", "|", "=", "?", "%", "_", "\x00", "\x1f", "\x7f",
 	"0", "1", "9", "a", "f", "A", "F", "g", "e", "E", "u", "U", "r", "l", "R", "L",
 	"\x80", "é", "\u2028", "😀", "\xc3", "\xe2", "\xf0")
 
 // core alphabet: the bytes that steer multi-byte look-ahead, for one more level
-var alphaCSSCore = engine.Atoms(" ", "\n", ":", ";", ",", "(", ")", "[", "]", "{", "}", "#", "\"", "'", ".",
+var alphaCSSCore = engine.Atoms(" ", "\n", "\v", ":", ";", ",", "(", ")", "[", "]", "{", "}", "#", "\"", "'", ".",
 	"+", "-", "@", "*", "/", "<", "!", ">", "\\", "|", "=", "%", "\x00", "1", "a", "e", "u", "r", "l", "é")
 
 var alphaJS = engine.Atoms(
